@@ -204,6 +204,9 @@ class C03(Check):
         yield from families.seats_ties(3, spaces.U(3, 5, 5), ties='id', cfgs=S)
         yield from families.repo_files(S, max_bytes=4000 if q else 10 ** 7)
         yield from families.corner_corpus(S)
+        # piles of ~10^5 ballots: zero-truncating and unit-sized surpluses.  Not qpq: Woodall prescribes no decimal arithmetic, and at this size droop's
+        # forced guarded 9+9 digits decide exact quotient == quota knife edges differently from exact rationals (99999 vs 99998.999999995)
+        yield from families.seats_ties(3, spaces.HUGE(3), seats=(1, 2), ties='id', cfgs=[c for c in S if c['rule'] != 'qpq'])
         if not q:
             yield from families.seats_ties(3, spaces.U(3, 0, 4), ties='all', cfgs=S)
             yield from families.seats_ties(3, spaces.W(3, 3, 3, (1, 2, 3, 5, 8)), seats=(1, 2), cfgs=S)
